@@ -1130,3 +1130,358 @@ Proof.
   rewrite c2p_all. cbn [option_map]. unfold p2c.
   rewrite where_map_mem_self. now rewrite where_length.
 Qed.
+
+(* ======================================================================== *)
+(* 7. Sizes stay consistent through a history; the non-scalar view           *)
+(* ======================================================================== *)
+Definition col_len (n : nat) (o : option col) : Prop :=
+  match o with Some d => length d = n | None => True end.
+Definition box_len (n : nat) (o : option (list bool)) : Prop :=
+  match o with Some m => length m = n | None => True end.
+
+Definition lwf (l : level) : Prop :=
+  let f := l_filt l in
+  let n := length (f_manual f) in
+  length (f_all f) = n /\ l_len l = Z.of_nat n /\ length (f_rids f) = n
+  /\ Forall (col_len n) (l_data l) /\ Forall (box_len n) (f_box f)
+  /\ hash_inv f.
+
+Lemma zip_and_length a b n :
+  length a = n -> length b = n -> length (zip_and a b) = n.
+Proof.
+  revert b n; induction a as [|x a IH]; intros [|y b] n Ha Hb; simpl in *;
+    try lia. destruct n; [discriminate|]. f_equal. apply IH; lia.
+Qed.
+
+Lemma and_boxes_length n box :
+  Forall (box_len n) box -> length (and_boxes n box) = n.
+Proof.
+  induction 1 as [|o box Ho _ IH]; simpl; [apply repeat_length|].
+  destruct o as [m|]; [|exact IH]. now apply zip_and_length.
+Qed.
+
+Lemma and_valid_length n data :
+  Forall (col_len n) data -> length (and_valid n data) = n.
+Proof.
+  induction 1 as [|o data Ho _ IH]; simpl; [apply repeat_length|].
+  destruct o as [d|]; [|exact IH].
+  apply zip_and_length; [now rewrite map_length|exact IH].
+Qed.
+
+Lemma update_box_len c old n data : forall box s,
+  Forall (col_len n) data -> Forall (box_len n) box ->
+  Forall (box_len n) (update_box c old n data box s).
+Proof.
+  intros box s Hd; revert box s; induction Hd as [|d data Hd0 Hd IH];
+    intros box s Hb.
+  - destruct box; exact Hb.
+  - destruct box as [|b box]; [exact Hb|].
+    inversion Hb as [|? ? Hb0 Hb']; subst. cbn [update_box].
+    constructor; [|now apply IH].
+    destruct (key_changed c old s); [|exact Hb0].
+    destruct d as [dcol|]; [|exact Hb0].
+    destruct (nth s (c_rng c) None) as [[lo hi]|]; [|exact Hb0].
+    unfold box_len, box_of. destruct (lo =? hi).
+    + apply repeat_length.
+    + now rewrite map_length.
+Qed.
+
+Lemma filter_update_wf l : lwf l -> lwf (filter_update l).
+Proof.
+  intros [Ha [Hl [Hr [Hd [Hb Hh]]]]]. unfold lwf, filter_update.
+  cbn [l_filt set_filt f_manual f_all f_rids f_box l_len l_data f_phash].
+  set (n := length (f_manual (l_filt l))) in *.
+  assert (Hb' : Forall (box_len n)
+                       (update_box (l_cfg l) (f_old (l_filt l)) n (l_data l)
+                                   (f_box (l_filt l)) 0))
+    by now apply update_box_len.
+  repeat split; try assumption.
+  destruct (c_enable (l_cfg l)); [|apply repeat_length].
+  apply zip_and_length; [|reflexivity].
+  apply zip_and_length; [now apply and_boxes_length|].
+  destruct (c_rminv (l_cfg l)); [now apply and_valid_length|apply repeat_length].
+Qed.
+
+Lemma select_data_len pall (data : list (option col)) n :
+  length pall = n -> Forall (col_len n) data ->
+  Forall (col_len (count_true pall)) (map (option_map (select pall)) data).
+Proof.
+  intros Hp H; induction H as [|o data Ho _ IH]; simpl; constructor;
+    [|exact IH].
+  destruct o as [d|]; [|exact I]. simpl in *.
+  apply select_length_count. lia.
+Qed.
+
+Lemma Forall_repeat {A} (P : A -> Prop) x n : P x -> Forall P (repeat x n).
+Proof. intros H; induction n; simpl; constructor; assumption. Qed.
+
+Lemma child_finish_wf c p :
+  lwf c -> lwf p -> lwf (child_finish (set_filt c (retrieve (l_filt c))) p).
+Proof.
+  intros [Ha [Hl [Hr [Hd [Hb Hh]]]]] [Pa [Pl [Pr [Pd [Pb Ph]]]]].
+  unfold child_finish. apply filter_update_wf.
+  cbn [l_filt set_filt l_cfg l_len l_data].
+  rewrite retrieve_phash.
+  set (pall := f_all (l_filt p)) in *.
+  assert (Hcnt : length (select pall (f_rids (l_filt p))) = count_true pall)
+    by (apply select_length_count; lia).
+  assert (Hdata : Forall (col_len (count_true pall))
+                         (map (option_map (select pall)) (l_data p)))
+    by (eapply select_data_len; [exact Pa|exact Pd]).
+  destruct (hash_eqb (parent_hash p) (f_phash (l_filt c))) eqn:E.
+  - apply hash_eqb_eq in E.
+    assert (Hn : length (f_manual (l_filt c)) = count_true pall).
+    { rewrite <- Hr, Hh, <- E. exact Hcnt. }
+    unfold lwf. cbn [l_filt l_len l_data].
+    rewrite retrieve_manual, retrieve_rids.
+    assert (Hall : f_all (retrieve (l_filt c)) = f_all (l_filt c))
+      by (unfold retrieve; destruct (all_true _); reflexivity).
+    assert (Hbox : f_box (retrieve (l_filt c)) = f_box (l_filt c))
+      by (unfold retrieve; destruct (all_true _); reflexivity).
+    rewrite Hall, Hbox, Hn in *.
+    repeat split; try assumption. unfold hash_inv.
+    now rewrite retrieve_rids, retrieve_phash.
+  - unfold lwf, mk_filter.
+    cbn [l_filt l_len l_data f_manual f_all f_rids f_box f_phash].
+    fold pall. rewrite map_length, repeat_length, Hcnt.
+    repeat split; try assumption; try reflexivity.
+    apply Forall_repeat. exact I.
+Qed.
+
+Theorem refresh_up_wf : forall ls, Forall lwf ls -> Forall lwf (refresh_up ls).
+Proof.
+  induction ls as [|c ps IH]; intros H; [exact H|].
+  inversion H as [|? ? Hc Hps]; subst.
+  destruct ps as [|p ps'].
+  - constructor; [now apply filter_update_wf|constructor].
+  - rewrite refresh_up_cons2. pose proof (IH Hps) as IH'.
+    remember (refresh_up (p :: ps')) as R eqn:E.
+    destruct R as [|q qs].
+    + pose proof (refresh_up_length (p :: ps')) as Hl.
+      rewrite <- E in Hl. discriminate.
+    + inversion IH'; subst. constructor; [|exact IH'].
+      now apply child_finish_wf.
+Qed.
+
+Lemma new_child_wf p : lwf p -> lwf (new_child p).
+Proof.
+  intros [Pa [Pl [Pr [Pd [Pb Ph]]]]]. unfold new_child.
+  apply filter_update_wf. unfold lwf, mk_filter.
+  cbn [l_filt l_len l_data f_manual f_all f_rids f_box f_phash].
+  set (pall := f_all (l_filt p)) in *.
+  assert (Hcnt : length (select pall (f_rids (l_filt p))) = count_true pall)
+    by (apply select_length_count; lia).
+  rewrite map_length, repeat_length, Hcnt.
+  repeat split; try reflexivity.
+  - eapply select_data_len; [exact Pa|exact Pd].
+  - apply Forall_repeat. exact I.
+Qed.
+
+Lemma grow_wf ls : Forall lwf ls -> Forall lwf (grow ls).
+Proof.
+  intros H. unfold grow. pose proof (refresh_up_wf ls H) as H'.
+  destruct (refresh_up ls) as [|p ps]; [constructor|].
+  inversion H'; subst. constructor; [now apply new_child_wf|exact H'].
+Qed.
+
+Lemma Forall_set_nth {A} (P : A -> Prop) l pos x :
+  Forall P l -> P x -> Forall P (set_nth pos x l).
+Proof.
+  intros H; revert pos; induction H as [|y l Hy H IH]; intros [|pos] Hx;
+    simpl; constructor; auto.
+Qed.
+
+Lemma upd_level_wf ls pos (h : level -> level) :
+  (forall l, lwf l -> lwf (h l)) -> Forall lwf ls ->
+  Forall lwf (upd_level ls pos h).
+Proof.
+  intros Hh H. unfold upd_level.
+  destruct (nth_error ls pos) as [l|] eqn:E; [|exact H].
+  apply Forall_set_nth; [exact H|]. apply Hh.
+  rewrite Forall_forall in H. apply H. eapply nth_error_In; exact E.
+Qed.
+
+Lemma set_manual_wf i v l : lwf l -> lwf (set_manual i v l).
+Proof.
+  intros H. unfold set_manual.
+  destruct (Z.of_nat (length (f_manual (l_filt l))) =? 0); [exact H|].
+  destruct H as [Ha [Hl [Hr [Hd [Hb Hh]]]]]. unfold lwf.
+  cbn [l_filt set_filt l_len l_data f_manual f_all f_rids f_box f_phash].
+  rewrite set_nth_length. repeat split; assumption.
+Qed.
+
+Lemma scatter_length base ids data :
+  length (scatter base ids data) = length base.
+Proof.
+  revert base data; induction ids as [|i ids IH]; intros base [|v data];
+    simpl; try reflexivity. now rewrite IH, set_nth_length.
+Qed.
+
+Lemma set_root_data_wf ls slot d :
+  Forall lwf ls ->
+  (forall l0, length d = length (f_manual (l_filt (last ls l0)))) ->
+  Forall lwf (set_root_data ls slot d).
+Proof.
+  intros H Hd. induction H as [|l ls Hl H IH]; [constructor|].
+  destruct ls as [|l' ls'].
+  - constructor; [|constructor].
+    destruct Hl as [Ha [Hn [Hr [Hdat [Hb Hh]]]]]. unfold lwf.
+    cbn [l_filt set_data l_len l_data]. repeat split; try assumption.
+    apply Forall_set_nth; [exact Hdat|]. exact (Hd l).
+  - change (set_root_data (l :: l' :: ls') slot d)
+      with (l :: set_root_data (l' :: ls') slot d).
+    constructor; [exact Hl|]. apply IH. exact Hd.
+Qed.
+
+Lemma last_indep {A} (l : list A) a b : l <> [] -> last l a = last l b.
+Proof.
+  induction l as [|x l IH]; intros H; [congruence|].
+  destruct l as [|y l]; [reflexivity|].
+  change (last (y :: l) a = last (y :: l) b). apply IH. discriminate.
+Qed.
+
+Lemma last_In {A} (l : list A) a : l <> [] -> In (last l a) l.
+Proof.
+  induction l as [|x l IH]; intros H; [congruence|].
+  destruct l as [|y l]; [now left|].
+  right. change (In (last (y :: l) a) (y :: l)). apply IH. discriminate.
+Qed.
+
+Theorem set_temp_wf ls pos slot seed :
+  Forall lwf ls -> Forall lwf (fst (set_temp ls pos slot seed)).
+Proof.
+  intros H. unfold set_temp.
+  destruct (skipn pos ls) as [|l anc] eqn:E; [exact H|].
+  destruct (c2r anc (iota 0 (Z.to_nat (l_len l)))) as [rids|]; [|exact H].
+  assert (Hne : ls <> []) by (intros ->; now rewrite skipn_nil in E).
+  set (full := scatter _ rids _).
+  assert (H1 : Forall lwf (set_root_data ls slot full)).
+  { apply set_root_data_wf; [exact H|]. intros l0.
+    unfold full. rewrite scatter_length, repeat_length.
+    rewrite (last_indep ls l0 l Hne).
+    assert (Hr : lwf (last ls l)).
+    { rewrite Forall_forall in H. apply H. now apply last_In. }
+    destruct Hr as [_ [Hl _]]. rewrite Hl. apply Nat2Z.id. }
+  destruct anc; [exact H1|]. cbn [fst].
+  rewrite <- (firstn_skipn pos (set_root_data ls slot full)) in H1.
+  apply Forall_app in H1. destruct H1 as [Ha Hb].
+  apply Forall_app. split; [exact Ha|now apply refresh_up_wf].
+Qed.
+
+Lemma set_cfg_wf l c : lwf l -> lwf (set_cfg l c).
+Proof. intros H; exact H. Qed.
+
+Theorem step_wf st op :
+  Forall lwf (s_levels st) -> Forall lwf (s_levels (fst (step st op))).
+Proof.
+  intros H. destruct op as [[[[tag a] b] c] d]. unfold step.
+  destruct (tag =? 0).
+  { cbn [fst s_levels]. apply upd_level_wf; [|exact H]. intros l Hl; exact Hl. }
+  destruct (tag =? 1).
+  { cbn [fst s_levels]. apply upd_level_wf; [|exact H].
+    intros l Hl. now apply set_manual_wf. }
+  destruct (tag =? 2).
+  { pose proof (set_temp_wf (s_levels st) (pos_of (s_levels st) a)
+                            (3 + Z.to_nat (b mod 2)) c H) as Ht.
+    destruct (set_temp (s_levels st) (pos_of (s_levels st) a)
+                       (3 + Z.to_nat (b mod 2)) c) as [ls' e].
+    exact Ht. }
+  destruct (tag =? 3).
+  { cbn [fst s_levels]. now apply refresh_up_wf. }
+  destruct (tag =? 4).
+  { cbn [fst s_levels]. apply upd_level_wf; [|exact H]. intros l Hl; exact Hl. }
+  destruct (tag =? 5).
+  { cbn [fst s_levels]. apply upd_level_wf; [|exact H]. intros l Hl; exact Hl. }
+  destruct (tag =? 6).
+  { cbn [fst]. destruct (Nat.leb (length (s_levels st)) MAXDEPTH);
+      cbn [s_levels]; [now apply grow_wf|exact H]. }
+  exact H.
+Qed.
+
+Lemma init_wf n cols :
+  Forall (fun d : col => length d = n) (firstn 3 cols) ->
+  Forall lwf (s_levels (init n cols)).
+Proof.
+  intros Hc. constructor; [|constructor].
+  unfold lwf, init_root.
+  cbn [l_filt l_len l_data f_manual f_all f_rids f_box f_phash].
+  rewrite !repeat_length, iota_length.
+  repeat split; try reflexivity.
+  - apply Forall_app. split.
+    + induction Hc as [|d ds Hd _ IH]; simpl; constructor; assumption.
+    + repeat constructor.
+  - apply Forall_repeat. exact I.
+  - unfold hash_inv; cbn.
+    rewrite <- (iota_length 0 n) at 2. now rewrite select_repeat_true.
+Qed.
+
+Theorem run_wf ops : forall st,
+  Forall lwf (s_levels st) -> Forall lwf (s_levels (fst (run st ops))).
+Proof.
+  induction ops as [|o ops IH]; intros st H; [exact H|].
+  cbn [run]. pose proof (step_wf st o H) as H1.
+  destruct (step st o) as [st1 out1]. cbn [fst] in H1.
+  pose proof (IH st1 H1) as H2.
+  destruct (run st1 ops) as [st2 out2]. exact H2.
+Qed.
+
+(* the image column along a whole refreshed chain *)
+Fixpoint img_ok (img : list Z) (ls : list level) : Prop :=
+  match ls with
+  | c :: ps => match ps with
+               | p :: anc =>
+                   image_ids img (p :: anc) (l_len c)
+                   = select (f_all (l_filt p)) (image_ids img anc (l_len p))
+                   /\ img_ok img ps
+               | [] => True
+               end
+  | [] => True
+  end.
+
+Lemma chain_c2r : forall ls,
+  Forall lwf ls -> view_ok ls ->
+  match ls with
+  | p :: anc => exists R, c2r anc (iota 0 (length (f_all (l_filt p)))) = Some R
+  | [] => True
+  end.
+Proof.
+  induction ls as [|p anc IH]; intros Hw Hv; [exact I|].
+  destruct anc as [|q anc']; [now eexists|].
+  inversion Hw as [|? ? Hp Hw']; subst.
+  destruct Hv as [[Hlen _] Hv].
+  destruct (IH Hw' Hv) as [R HR].
+  exists (select (f_all (l_filt q)) R).
+  destruct Hp as [Ha [Hl _]].
+  assert (Hn : length (f_all (l_filt p)) = count_true (f_all (l_filt q))) by lia.
+  rewrite Hn. now apply c2r_child.
+Qed.
+
+Theorem img_ok_chain img : forall ls,
+  Forall lwf ls -> view_ok ls -> img_ok img ls.
+Proof.
+  induction ls as [|c ps IH]; intros Hw Hv; [exact I|].
+  destruct ps as [|p anc]; [exact I|].
+  inversion Hw as [|? ? Hc Hw']; subst.
+  destruct Hv as [Hcp Hv].
+  split; [|now apply IH].
+  destruct (chain_c2r (p :: anc) Hw' Hv) as [R HR].
+  inversion Hw' as [|? ? Hp _]; subst. destruct Hp as [Ha [Hl _]].
+  eapply image_child_is_view; [exact Hcp|lia|exact HR].
+Qed.
+
+(* For every root dataset whose columns have one value per event and every
+   history: after rejuvenate of the youngest member the image column (read
+   through mapper.py) of every child is that of its parent restricted to
+   the parent's filter, and all filter arrays have one entry per event. *)
+Theorem history_nonscalar_view :
+  forall n cols ops,
+    Forall (fun d : col => length d = n) (firstn 3 cols) ->
+    let st := fst (step (fst (run (init n cols) ops)) (3, 0, 0, 0, 0)) in
+    img_ok (s_img st) (s_levels st) /\ Forall lwf (s_levels st).
+Proof.
+  intros n cols ops Hc st.
+  assert (Hw : Forall lwf (s_levels st)).
+  { apply step_wf, run_wf, init_wf, Hc. }
+  split; [|exact Hw].
+  apply img_ok_chain; [exact Hw|]. apply rejuvenate_child_is_view.
+Qed.
